@@ -41,11 +41,19 @@ def run_c14(it):
         kwargs = {}
         if it["set"]["md"]:
             md = dtwx.max_dist_user(dict(c, md=it["set"]["md"]))
-            if variant.get("as_value"):
+            if variant.get("both") == "value_smaller":
+                # both thresholds given: the smaller one is in force
+                kwargs["max_dist"] = md * 3
+                kwargs["max_value"] = md / len(it["q"])
+            elif variant.get("both") == "dist_smaller":
+                kwargs["max_dist"] = md
+                kwargs["max_value"] = md * 3 / len(it["q"])
+            elif variant.get("as_value"):
                 kwargs["max_value"] = md / len(it["q"])
             else:
                 kwargs["max_dist"] = md
-        tag = "%s%s" % ("lb," if use_lb else "", "c" if use_c else "py")
+        tag = "%s%s%s" % ("lb," if use_lb else "", "c" if use_c else "py",
+                          (",both:" + variant["both"]) if (variant.get("both") and it["set"]["md"]) else "")
         r = dtwx.guarded(lambda: subsequence_search(q, cands, dists_options=dict(opts), use_lb=use_lb,
                                                     use_c=use_c, **kwargs))
         if dtwx.is_raised(r):
